@@ -553,6 +553,18 @@ func c17AlterFlags(e *Env, viol func(kind, sig, what, chk string, rep any), mu *
 				"drop-fk":             &schema.DropForeignKey{F: fk},
 				"comment":             &schema.ModifyAttr{From: &schema.Comment{Text: "x"}, To: &schema.Comment{Text: "y"}},
 			}
+			// a STORED generated column that loses its expression - alone, and together with other edits of the
+			// same column (one ModifyColumn carrying several change bits)
+			gen := func() *schema.Column {
+				return schema.NewColumn("g").SetType(ity).SetNull(true).SetGeneratedExpr(&schema.GeneratedExpr{Expr: "(id + 1)", Type: "STORED"})
+			}
+			t.AddColumns(gen())
+			plain := func() *schema.Column { return schema.NewColumn("g").SetType(ity).SetNull(true) }
+			cs["g-drop-expr"] = &schema.ModifyColumn{From: gen(), To: plain(), Change: schema.ChangeGenerated}
+			cs["g-drop-expr+null"] = &schema.ModifyColumn{From: gen(), To: plain().SetNull(false), Change: schema.ChangeGenerated | schema.ChangeNull}
+			cs["g-drop-expr+default"] = &schema.ModifyColumn{From: gen(), To: plain().SetDefault(&schema.Literal{V: "7"}), Change: schema.ChangeGenerated | schema.ChangeDefault}
+			cs["g-drop-expr+type"] = &schema.ModifyColumn{From: gen(), To: schema.NewColumn("g").SetType(c02Type(sd, 1)).SetNull(true), Change: schema.ChangeGenerated | schema.ChangeType}
+			cs["g-drop-expr+comment"] = &schema.ModifyColumn{From: gen(), To: plain().SetComment("c"), Change: schema.ChangeGenerated | schema.ChangeComment}
 			return t, cs
 		}
 		flag := func(names []string) (bool, string, error) {
@@ -591,6 +603,17 @@ func c17AlterFlags(e *Env, viol func(kind, sig, what, chk string, rep any), mu *
 				continue
 			}
 			single[k] = f
+		}
+		// an edit that cannot be reversed alone cannot be reversed when the same ModifyColumn carries more bits
+		if f, ok := single["g-drop-expr"]; ok && !f {
+			for _, k := range names {
+				if strings.HasPrefix(k, "g-drop-expr+") && single[k] {
+					if _, planned := all[k]; planned {
+						_, text, _ := flag([]string{k})
+						viol("failing-input", "alter-flag-not-conjunction", fmt.Sprintf("%s: dropping the generation expression of a column is planned as irreversible, but the same change together with another edit of that column (%s) is planned with Reversible=true\n%s", d, k, text), "Props.C17.alter_flag_iff / irreversible_never_reversible", map[string]any{"dialect": d, "changes": []string{k}})
+					}
+				}
+			}
 		}
 		names = names[:0]
 		for k := range all {
